@@ -365,6 +365,8 @@ def malformed(case, batch, kind):
                    networks were evaluated),
        'late'    — multi-agent only: only the LAST agent's reward is one row too long (the earlier agents' updates run first)"""
     b = clone_batch(case, batch)
+    if kind == "rows" and case["B"] == 1:
+        kind = "width"            # a one-row batch broadcasts against any number of reward rows: learn() would accept it
     wide = lambda v: torch.cat([v, v[:, :1]], dim=1) if v.ndim == 2 else torch.stack([v, v], dim=1)
     tall = lambda v: torch.cat([v, v[:1]], dim=0)
     if case["algo"] in MULTI:
